@@ -260,7 +260,11 @@ where
         match entry.take() {
             Some(any) => match any.downcast::<T>() {
                 Ok(value) => Ok(*value),
-                Err(any) => Err(HandleError::MismatchedType(format!("{:?}", (*any).type_id()))),
+                Err(any) => {
+                    let err = HandleError::MismatchedType(format!("{:?}", (*any).type_id()));
+                    *entry = Some(any);
+                    Err(err)
+                }
             },
             None => Err(HandleError::Unknown),
         }
